@@ -11,6 +11,54 @@ use lexical_core::{
 use crate::refmodel::*;
 
 // ---------------------------------------------------------------------------------------------
+// allocator fault: while a worker is inside a lexical_core *parse* call, the global allocator may be
+// told to refuse (return null).  The parsers are documented as never panicking or aborting and, on the
+// pinned tree, never allocate, so this is invisible there; code that starts allocating on a parse path
+// turns an exhausted allocator into a process abort, which the driver reports.
+
+pub struct SimAlloc;
+
+thread_local! {
+    static DENY_ALLOC: std::cell::Cell<bool> = const { std::cell::Cell::new(false) };
+}
+pub static ALLOC_FAULTS: std::sync::atomic::AtomicBool = std::sync::atomic::AtomicBool::new(false);
+
+unsafe impl std::alloc::GlobalAlloc for SimAlloc {
+    unsafe fn alloc(&self, layout: std::alloc::Layout) -> *mut u8 {
+        if DENY_ALLOC.try_with(|d| d.get()).unwrap_or(false) {
+            return std::ptr::null_mut();
+        }
+        std::alloc::System.alloc(layout)
+    }
+    unsafe fn dealloc(&self, ptr: *mut u8, layout: std::alloc::Layout) {
+        std::alloc::System.dealloc(ptr, layout)
+    }
+    unsafe fn alloc_zeroed(&self, layout: std::alloc::Layout) -> *mut u8 {
+        if DENY_ALLOC.try_with(|d| d.get()).unwrap_or(false) {
+            return std::ptr::null_mut();
+        }
+        std::alloc::System.alloc_zeroed(layout)
+    }
+    unsafe fn realloc(&self, ptr: *mut u8, layout: std::alloc::Layout, new_size: usize) -> *mut u8 {
+        if DENY_ALLOC.try_with(|d| d.get()).unwrap_or(false) {
+            return std::ptr::null_mut();
+        }
+        std::alloc::System.realloc(ptr, layout, new_size)
+    }
+}
+
+/// Run a library parse call with the allocator refusing (when this run has allocator faults enabled).
+fn no_alloc<R>(f: impl FnOnce() -> R) -> R {
+    if !ALLOC_FAULTS.load(std::sync::atomic::Ordering::Relaxed) {
+        return f();
+    }
+    DENY_ALLOC.with(|d| d.set(true));
+    let r = f();
+    DENY_ALLOC.with(|d| d.set(false));
+    r
+}
+
+// ---------------------------------------------------------------------------------------------
 // the operation alphabet
 
 #[derive(Clone, Debug, PartialEq)]
@@ -1092,18 +1140,22 @@ fn exec_pint<T: SimInt, const F: u128>(ty: IntTy, radix: u8, text: &[u8], out: &
     let opts = ParseIntegerOptions::new();
     let model = ref_parse_int(ty, radix as u32, text);
     let c = guarded(|| {
-        if radix == 10 {
-            lexical_core::parse::<T>(text)
-        } else {
-            lexical_core::parse_with_options::<T, F>(text, &opts)
-        }
+        no_alloc(|| {
+            if radix == 10 {
+                lexical_core::parse::<T>(text)
+            } else {
+                lexical_core::parse_with_options::<T, F>(text, &opts)
+            }
+        })
     });
     let p = guarded(|| {
-        if radix == 10 {
-            lexical_core::parse_partial::<T>(text)
-        } else {
-            lexical_core::parse_partial_with_options::<T, F>(text, &opts)
-        }
+        no_alloc(|| {
+            if radix == 10 {
+                lexical_core::parse_partial::<T>(text)
+            } else {
+                lexical_core::parse_partial_with_options::<T, F>(text, &opts)
+            }
+        })
     });
     let (c, p) = match (c, p) {
         (Ok(c), Ok(p)) => (c, p),
@@ -1262,10 +1314,10 @@ fn looks_special(text: &[u8]) -> bool {
 fn exec_pfloat<T: SimFloat>(ty: FloatTy, text: &[u8], expect: Option<u64>, lite: bool, out: &mut OpResult) {
     const STD: u128 = lexical_core::format::STANDARD;
     let lossy: ParseFloatOptions = ParseFloatOptions::builder().lossy(true).build_unchecked();
-    let c = guarded(|| lexical_core::parse::<T>(text));
-    let p = guarded(|| lexical_core::parse_partial::<T>(text));
-    let lc = guarded(|| lexical_core::parse_with_options::<T, STD>(text, &lossy));
-    let lp = guarded(|| lexical_core::parse_partial_with_options::<T, STD>(text, &lossy));
+    let c = guarded(|| no_alloc(|| lexical_core::parse::<T>(text)));
+    let p = guarded(|| no_alloc(|| lexical_core::parse_partial::<T>(text)));
+    let lc = guarded(|| no_alloc(|| lexical_core::parse_with_options::<T, STD>(text, &lossy)));
+    let lp = guarded(|| no_alloc(|| lexical_core::parse_partial_with_options::<T, STD>(text, &lossy)));
     let (c, p, lc, lp) = match (c, p, lc, lp) {
         (Ok(c), Ok(p), Ok(lc), Ok(lp)) => (c, p, lc, lp),
         (c, p, lc, lp) => {
@@ -1861,7 +1913,24 @@ fn exec_pnan_custom<T: SimFloat>(ty: FloatTy, idx: u8, text: u8, input: &[u8], o
     let cfg: &'static [u8] = PNAN_POOL[idx as usize];
     let _ = text;
     // deliberately a plain local: every call of this function builds its options at the same address
-    let opts = match ParseFloatOptions::builder().nan_string(Some(cfg)).build() {
+    let built = if (idx as usize + text as usize) % 2 == 0 {
+        ParseFloatOptions::builder().nan_string(Some(cfg)).build()
+    } else {
+        // a long-lived options value reconfigured in place through the (deprecated, still public) setters
+        #[allow(deprecated)]
+        {
+            let mut o = ParseFloatOptions::new();
+            o.set_nan_string(Some(b"NaN"));
+            o.set_nan_string(None);
+            o.set_nan_string(Some(cfg));
+            if o.is_valid() {
+                Ok(o)
+            } else {
+                Err(lexical_core::Error::InvalidNanString)
+            }
+        }
+    };
+    let opts = match built {
         Ok(o) => o,
         Err(e) => {
             out.fail("C18", format!("valid NaN string \"{}\" rejected: {:?}", show_text(cfg), e));
